@@ -126,7 +126,10 @@ func TestVerif_C19U(t *testing.T) {
 	sb.WriteString("From KM Require Import Base.Cases Model.Client.\n")
 	sb.WriteString("(* (mode of the file already there, umask, observed mode of the private key file afterwards) *)\n")
 	sb.WriteString("Definition writes : list (option N * N * N) := [\n " + strings.Join(cases, ";\n ") + "\n].\n")
-	sb.WriteString("Definition c19u_mismatches := Eval vm_compute in mismatches (fun c : option N * N * N => let '(ex, um, obs) := c in negb (N.eqb (write_private ex um) obs)) writes.\nPrint c19u_mismatches.\n")
+	sb.WriteString("Definition c19u_bad (c : option N * N * N) : bool := let '(ex, um, obs) := c in negb (N.eqb (write_private ex um) obs).\n")
+	sb.WriteString("Definition c19u_mismatches := Eval vm_compute in mismatches c19u_bad writes.\nPrint c19u_mismatches.\n")
+	// the property predicate on the observation: the observed mode has group/other bits
+	sb.WriteString("Definition c19u_violating := Eval vm_compute in mismatches (fun c : option N * N * N => c19u_bad c && negb (N.eqb (others_bits (snd c)) 0)) writes.\nPrint c19u_violating.\n")
 	sb.WriteString("Definition c19u_ncases := Eval vm_compute in length writes.\nPrint c19u_ncases.\n")
 	if err := ioutil.WriteFile(filepath.Join(verifOut(), "CasesC19U.v"), []byte(sb.String()), 0644); err != nil {
 		t.Fatal(err)
